@@ -1,0 +1,19 @@
+//go:build verif
+
+package file
+
+import "sync/atomic"
+
+var verifCrashFn atomic.Value // func(step, fname string)
+
+// VerifSetCrashPoint installs a callback run after each file write, sync,
+// create and remove of the file store and between the steps of its
+// operations, so that a harness can image the directory as a crash would
+// leave it and track which bytes were synced.
+func VerifSetCrashPoint(f func(step, fname string)) { verifCrashFn.Store(f) }
+
+func verifCrashPoint(step, fname string) {
+	if f, ok := verifCrashFn.Load().(func(string, string)); ok && f != nil {
+		f(step, fname)
+	}
+}
